@@ -207,6 +207,21 @@ class Check:
         self.functions.add(f"{rel}:{qual}")
         return self.idx.func(rel, qual)
 
+    def borrow(self, rule_fn, mapping, *args, **kw):
+        """Run a rule function of another property on a scratch Check and adopt
+        the obligations whose rule id is a key of `mapping`, renamed."""
+        tmp = Check(self.pid, self.idx, self.tier)
+        rule_fn(tmp, *args, **kw)
+        n = 0
+        for o in tmp.obs:
+            if o.rule in mapping:
+                o.rule = mapping[o.rule]
+                self.obs.append(o)
+                self.functions.add(o.where)
+                n += 1
+        self.trusted.extend(t for t in tmp.trusted if t not in self.trusted)
+        return n
+
 
 # ---------------------------------------------------------------------------
 # known findings
